@@ -17,7 +17,9 @@
   function and the lock targets / statement order of `==` and `concat` are
   *generated* from the source (Generated/Capacity, Generated/ListLocks), and so
   are the early-return / growth conditions of `get`, `swap`, `ErasedList::eq`
-  and `reserve` (Generated/ListGuards).
+  and `reserve` (Generated/ListGuards), and the body of the `join` binding of
+  `src/runtime/basic.rs` (Generated/ListJoin: a function from the element
+  strings and the separator to the result, over byte strings).
 
   Element size `sz` (`vtable.size()`) is a parameter of a run: 0 for
   zero-sized element types (capacity `usize::MAX`, nothing allocated).
@@ -30,6 +32,7 @@ import RotoV.Model.ListBase
 import RotoV.Generated.Capacity
 import RotoV.Generated.ListLocks
 import RotoV.Generated.ListGuards
+import RotoV.Generated.ListJoin
 
 namespace RotoV.ListM
 open RotoV
@@ -265,7 +268,8 @@ inductive Op
   | eq (a b : Nat) (typed : Bool)
   | toVec (h : Nat)
   | iter (h : Nat)
-  | join (h : Nat)
+  /-- script `l.join(sep)` on a `List[String]`: element `v` is the string `elemStr v` -/
+  | join (h : Nat) (sep : Str)
   deriving DecidableEq, Repr, Inhabited
 
 inductive Out
@@ -274,6 +278,8 @@ inductive Out
   | bool (b : Bool)
   | opt (o : Option Nat)
   | vals (l : List Nat)
+  /-- a string result (UTF-8 bytes) -/
+  | str (s : Str)
   | fault (f : Fault)
   deriving DecidableEq, Repr, Inhabited
 
@@ -510,10 +516,11 @@ def stepE (sz : Nat) (s : St) : Op → E (Out × St)
     withLock s h (fun l => match iterLoop l 0 (l.len + 1) with
                            | .error f => .error f
                            | .ok xs => .ok (.vals xs, l))
-  | .join h =>
+  | .join h sep =>
+    -- the binding's body (generated) applied to the elements read under the lock
     withLock s h (fun l => match readAll l with
                            | .error f => .error f
-                           | .ok xs => .ok (.vals xs, l))
+                           | .ok xs => .ok (.str (Gen.ListJoin.join_body (xs.map elemStr) sep), l))
 
 /-- total step: a fault leaves the state as it was -/
 def step (sz : Nat) (s : St) (op : Op) : Out × St :=
@@ -550,6 +557,12 @@ def Spec.bind (t : Spec) (d : Nat) (xs : List Nat) : Out × Spec :=
   if d < t.slots.length then
     (.unit, { lists := t.lists ++ [xs], slots := t.slots.set d (some t.lists.length) })
   else (.fault .badHandle, t)
+
+/-- what `join` means (Rust's `[String]::join`, the documented behaviour of the
+    `List[String].join` method): the elements in order with the separator
+    between every two neighbours — nothing before the first, nothing after the
+    last, whatever the elements and the separator are -/
+def joinSpec (l : List Str) (sep : Str) : Str := (l.intersperse sep).flatten
 
 /-- the same operations on `Vec`s shared between handles -/
 def specStep (t : Spec) : Op → Out × Spec
@@ -614,10 +627,10 @@ def specStep (t : Spec) : Op → Out × Spec
     match t.vec h with
     | none => (.fault .badHandle, t)
     | some (_, xs) => (.vals xs, t)
-  | .join h =>
+  | .join h sep =>
     match t.vec h with
     | none => (.fault .badHandle, t)
-    | some (_, xs) => (.vals xs, t)
+    | some (_, xs) => (.str (joinSpec (xs.map elemStr) sep), t)
 
 def specRun : Spec → List Op → List Out
   | _, [] => []
